@@ -7,6 +7,7 @@ import Rare.Proofs.C05Status
 import Rare.Model.PipelineSkeleton
 import Rare.Gen.Skeleton
 import Rare.Proofs.AggLoopTrace
+import Rare.Proofs.C05Signal
 /-!
 # C05 — race-free, atomic renders, complete final render
 
@@ -101,9 +102,91 @@ theorem matched_ge_sum_displayed {α : Type} [DecidableEq α] (cls : α → Pipe
     s.consumed.length ≤ s.nMatched :=
   Pipeline.matched_ge_consumed (Pipeline.inv_reach (Pipeline.inv_init cls B K inputs W) hr)
 
+/-! ## The signal path: Ctrl-C / SIGINT
+
+`RunAggregationLoop` registers `signal.Notify(exitSignal, os.Interrupt)` and its processing loop selects between
+`readChan` and `exitSignal`; a signal leaves the loop like the end of the input does (same hand-shake, same final
+`writeOutput()`), without stopping the extractor.  `Model/C05Signal.lean`: the transition system above plus the step
+`signal` (enabled whenever main is in its select).  With a signal the run still ends with a complete render – of
+what has been RECEIVED, not of the whole input. -/
+
+/-- Mutual exclusion of rendering and sampling holds on the signal path too. -/
+theorem signal_render_sample_exclusive (stream : List (List κ)) {s : SSt κ} (hr : SReach (sinit stream) s) :
+    ¬ (s.base.ticker = .rendering ∧ s.base.main.isSampling = true) := by
+  have h := sinv_reach hr
+  rintro ⟨ht, hm⟩
+  have h1 := h.tickOwns.mp ht
+  have h2 := h.mainOwns.mp hm
+  rw [h1] at h2; cases h2
+
+/-- No deadlock: until the final render has happened some goroutine can move (in particular main blocked in
+    `outputDone <- true` after a signal is always released: the ticker finishes its render and takes the hand-shake). -/
+theorem signal_progress (stream : List (List κ)) {s : SSt κ} (hr : SReach (sinit stream) s)
+    (hf : s.base.main ≠ .finished) : ∃ s', SStep s s' :=
+  sprogress (sinv_reach hr) hf
+
+/-- Termination under ticker fairness, signal included: every step other than the ticker's (and, after a signal,
+    the extractor's, whose output nobody reads any more) strictly decreases a measure; those steps change neither
+    main nor the aggregator. -/
+theorem signal_measure (stream : List (List κ)) {s s' : SSt κ} (hr : SReach (sinit stream) s) (hs : SStep s s') :
+    smeasure s' < smeasure s ∨ (smeasure s' = smeasure s ∧ s'.base.main = s.base.main ∧ s'.base.sampled = s.base.sampled) :=
+  sstep_measure hs (sinv_reach hr).sig
+
+/-- Ends with a complete render, signal or not: when main has finished, the ticker goroutine has returned, nobody
+    holds the mutex, the last `writeOutput()` saw the aggregator's final state, that state holds EVERY match main
+    took off the channel (no batch is half-sampled), it is a prefix of the matches of the input – and it is all of
+    them when no signal arrived. -/
+theorem signal_final_render (stream : List (List κ)) {s : SSt κ} (hr : SReach (sinit stream) s)
+    (hm : s.base.main = .finished) :
+    s.base.ticker = .stopped ∧ s.base.mutex = .none ∧ s.base.renders.getLast? = some s.base.sampled ∧
+    s.base.sampled = s.base.received ∧ s.base.sampled <+: stream.flatten ∧
+    (s.signalled = false → s.base.sampled = stream.flatten) := by
+  have h := sinv_reach hr
+  have hst := h.stopped.mpr (Or.inr hm)
+  refine ⟨hst, ?_, h.last hm, sampled_eq_received h (Or.inr (Or.inr (Or.inl hm))), ssampled_prefix h,
+    fun hs => (h.drained (Or.inr (Or.inr hm)) hs).1⟩
+  cases hmu : s.base.mutex with
+  | none => rfl
+  | main => have := h.mainOwns.mpr hmu; rw [hm] at this; cases this
+  | ticker => have := h.tickOwns.mpr hmu; rw [hst] at this; cases this
+
+/-- Every render on the signal path saw a prefix of the input's matches (counts never exceed the full counts). -/
+theorem signal_renders_are_prefixes [DecidableEq κ] (stream : List (List κ)) {s : SSt κ} (hr : SReach (sinit stream) s) :
+    ∀ r ∈ s.base.renders, r <+: stream.flatten ∧ ∀ k, r.count k ≤ stream.flatten.count k := by
+  intro r hmem
+  have hp := (sinv_reach hr).prefixes r hmem
+  exact ⟨hp, fun k => hp.sublist.count_le k⟩
+
+/-- The runs without a signal are exactly the runs of the transition system of the first section (so everything
+    proved there – the final render sees ALL matches – is about them). -/
+theorem signal_free_runs_are_base (stream : List (List κ)) (b : St κ) :
+    SReach (sinit stream) ⟨b, false⟩ ↔ Reach (init stream) b :=
+  ⟨fun h => sreach_unsignalled h rfl, reach_sreach⟩
+
+/-- Boundary: with a signal "final output reflects all matches" does NOT hold (and is not claimed by the code): a
+    signal right after the first batch ends the run with a final render of that batch only. -/
+theorem signal_final_partial_counterexample :
+    ∃ s : SSt Nat, SReach (sinit [[1], [2]]) s ∧ s.base.main = .finished ∧ s.signalled = true ∧
+      s.base.renders.getLast? = some [1] ∧ s.base.sampled ≠ [[1], [2]].flatten := by
+  have hr : SReach (sinit [[(1 : Nat)], [2]]) _ :=
+    .step (.step (.step (.step (.step (.step (.step (.step (.refl (s0 := sinit [[(1 : Nat)], [2]]))
+    (.base _ _ (.arrive _ [1] [[2]] rfl))) (.base _ _ (.recv _ [1] [] rfl rfl))) (.base _ _ (.mlock _ [1] rfl rfl)))
+    (.base _ _ (.sample _ 1 [] rfl))) (.base _ _ (.munlock _ rfl))) (.signal _ rfl))
+    (.base _ _ (.handshake _ rfl rfl))) (.base _ _ (.final _ rfl))
+  exact ⟨_, hr, rfl, rfl, by decide, by decide⟩
+
 /-- The aggregation-loop skeleton regenerated from /repo is the one the transition system models. -/
 theorem skeleton_matches_source :
     Gen.Skeleton.runAggregationLoop = PipelineSkeleton.runAggregationLoop := rfl
+
+/-- … and in it the signal branch is what `SStep.signal` models: a `select` case on `exitSignal` (a channel of
+    capacity 1, as `signal.Notify` needs) that only leaves the loop, sitting next to the `readChan` case; the
+    hand-shake and the final `writeOutput()` follow the loop whichever case left it. -/
+theorem skeleton_signal_branch :
+    ["select{", "recv:exitSignal", "break:PROCESSING_LOOP", "recv:reader"] <:+: Gen.Skeleton.runAggregationLoop ∧
+    ["send:outputDone", "call:writeOutput"] <:+ Gen.Skeleton.runAggregationLoop ∧
+    "makechan:1" ∈ Gen.Skeleton.runAggregationLoop := by
+  refine ⟨by decide, by decide, by decide⟩
 
 /-! ## Data races: lockset discipline over the access tables regenerated from /repo
 
